@@ -12,6 +12,9 @@ from ..util import diff, norm, vdiff
 ID = "C15"
 LEVEL = "model_checking"
 ENGINE = "E2 history explorer + E3 thread-schedule explorer"
+# solo references come from pristine processes, so a history that fails only inside a long-lived worker (which has run other parser
+# objects before) is itself a counter-example to "as if it were the only parser in the process"
+LEAK_IS_VIOLATION = True
 TECHNIQUE = ("exhaustive enumeration of construct/run operation interleavings of 2-3 parser objects, and stateless DFS over all "
              "thread schedules (cooperative baton at lexer-build / parser-build / per-statement points, pre-emption bounded) "
              "of concurrent construct+run on the real code")
@@ -39,6 +42,9 @@ OBJ = [
     # Hive table whose SERDEPROPERTIES use the per-lexer "input.regex" side channel, next to plain key=value properties
     ("CREATE EXTERNAL TABLE r5 (x string) ROW FORMAT SERDE 'a.b.RegexSerDe' WITH SERDEPROPERTIES (\"input.regex\" = \"(a|b)\") STORED AS TEXTFILE;\n"
      "CREATE EXTERNAL TABLE p5 (y int) STORED AS TEXTFILE TBLPROPERTIES ('k1'='v1');", dict()),
+    # the very same text as object 2 (incl. the rejected statement) but with the opposite silent setting, and as object 0 but verbatim names
+    ("CREATE TABLE t3 (d int);\nCREATE TABLE ( ( ;", dict(silent=True)),
+    ('CREATE TABLE "t1" ("a" int, "b" varchar(3));\nCREATE SEQUENCE q START 1;', dict(normalize_names=False)),
 ]
 RUNARGS = [dict(), dict(output_mode="hql", group_by_type=True)]
 
@@ -48,6 +54,8 @@ THREADS = {
     "2thr_err": [(0, 0), (2, 0)],
     "2thr_rel": [(1, 0), (4, 0)],
     "2thr_regex": [(5, 0), (1, 1)],
+    "2thr_sametext": [(6, 0), (2, 0)],
+    "2thr_samenames": [(7, 0), (0, 0)],
     "3thr": [(0, 0), (1, 1), (3, 0)],
     "2thr_fine": [(0, 0), (1, 0)],
 }
@@ -88,7 +96,7 @@ def histories(k, runs, objs):
 
 def gen_cases(tier):
     cases = []
-    for objs in ([0, 1], [0, 2], [1, 3], [1, 4], [4, 1], [5, 1], [0, 5]):
+    for objs in ([0, 1], [0, 2], [1, 3], [1, 4], [4, 1], [5, 1], [0, 5], [6, 2], [2, 6], [0, 7], [7, 0]):
         for h in histories(2, 2, objs):
             cases.append({"kind": "ops", "hist": h})
     for objs in ([0, 1, 2], [1, 4, 5]):
@@ -111,25 +119,57 @@ def gen_cases(tier):
 
 
 _SOLO = {}
+_SOLO_PROG = r"""
+import sys, json
+sys.path.insert(0, sys.argv[1])
+from simple_ddl_parser import DDLParser
+ddl, ctor, argsl = json.loads(sys.argv[2])
+norm = lambda v: json.loads(json.dumps(v, default=lambda o: "<<" + type(o).__name__ + ">>"))
+out = []
+try:
+    p = DDLParser(ddl, **ctor)
+    for a in argsl:
+        try:
+            out.append(norm(["ok", p.run(**a)]))
+        except Exception as e:
+            out.append(["exc", type(e).__name__])
+except Exception as e:
+    out = [["ctor-exc", type(e).__name__]] * len(argsl)
+print("SOLO " + json.dumps(out))
+"""
+SEQS = [(0,), (1,), (0, 0), (0, 1), (1, 0), (1, 1)]
+
+
+def _solo_proc(i, args_seq):
+    """object i running args_seq in a brand-new interpreter that constructs no other parser: the definition of 'solo'"""
+    import os
+    import subprocess
+
+    from .. import sut
+    from ..runner import HarnessError
+
+    p = subprocess.run([sut.PYTHON, "-c", _SOLO_PROG, sut.root(), json.dumps([OBJ[i][0], OBJ[i][1], [RUNARGS[a] for a in args_seq]])],
+                       env=dict(os.environ, PYTHONHASHSEED="0", PYTHONDONTWRITEBYTECODE="1"), capture_output=True, text=True, cwd=sut.root())
+    line = [l for l in p.stdout.splitlines() if l.startswith("SOLO ")]
+    if not line:
+        raise HarnessError("solo subprocess failed: " + p.stderr[-600:])
+    return json.loads(line[0][5:])
+
+
+def prepare(tier):
+    from concurrent.futures import ThreadPoolExecutor
+
+    keys = [(i, sq) for i in range(len(OBJ)) for sq in SEQS]
+    with ThreadPoolExecutor(16) as ex:
+        for k, v in zip(keys, ex.map(lambda k: _solo_proc(*k), keys)):
+            _SOLO[k] = v
 
 
 def _solo(i, args_seq):
-    """results of object i running args_seq alone (no other object alive meanwhile)"""
-    from simple_ddl_parser import DDLParser
-
+    """results of object i running args_seq alone (computed in a pristine process; see prepare)"""
     k = (i, tuple(args_seq))
     if k not in _SOLO:
-        out = []
-        try:
-            p = DDLParser(OBJ[i][0], **OBJ[i][1])
-            for ai in args_seq:
-                try:
-                    out.append(norm(["ok", p.run(**RUNARGS[ai])]))
-                except Exception as e:  # noqa
-                    out.append(["exc", type(e).__name__])
-        except Exception as e:  # noqa
-            out = [["ctor-exc", type(e).__name__]] * len(args_seq)
-        _SOLO[k] = out
+        _SOLO[k] = _solo_proc(i, tuple(args_seq))
     return _SOLO[k]
 
 
